@@ -51,6 +51,11 @@ def table : List ClassReads := [
                 always := false, kinds := [P], ext := [(.attr, P)], own := [] },
               { getter := "branch_lengths", impl := "branch_lengths", guard := some "branch_lengths_need_update",
                 always := false, kinds := [P], ext := [], own := [(0, true)] }] },
+  { cls := "FlexibleTimeTreeModel", leaf := false, setter := .none,
+    cells := [{ getter := "node_heights", impl := "node_heights", guard := some "heights_need_update",
+                always := false, kinds := [P], ext := [(.attr, P)], own := [] },
+              { getter := "branch_lengths", impl := "branch_lengths", guard := some "branch_lengths_need_update",
+                always := false, kinds := [P], ext := [], own := [(0, true)] }] },
   -- `_call` refreshes the heights WITHOUT clearing heights_need_update (own read (0,false))
   { cls := "ReparameterizedTimeTreeModel", leaf := false, setter := .none,
     cells := [{ getter := "node_heights", impl := "node_heights", guard := some "heights_need_update",
@@ -103,7 +108,7 @@ def anchored : List String := [
 
 /-- the other classes the check's graph instantiates -/
 def further : List String := [
-  "HKY", "GTR", "StrictClockModel", "SimpleClockModel", "SitePattern", "ConstantCoalescentModel",
+  "FlexibleTimeTreeModel", "HKY", "GTR", "StrictClockModel", "SimpleClockModel", "SitePattern", "ConstantCoalescentModel",
   "TreeLikelihoodModel", "Distribution", "JointDistributionModel"]
 
 end TT.C11.Reads
